@@ -333,7 +333,12 @@ EXTRA2 = {
            "asymmetric sparsity patterns, scalar weights as full matrices, optional delays, vectorize on/off) and compared "
            "with the reference; a third of the discrete Connectivity delays pass spread=0 explicitly.",
     "C17": " One to three keys per sweep; permuted grids with three keys.",
+    "C06": " A quarter of the flat circuits name nodes like variables of the generated function (t, y, dy, hist, weight, x); "
+           "a basic request that raises on a model that get_run_func translates is a violation.",
 }
+EXTRA2["C16"] += (" The population arm draws dde_approx=3 for a fifth of the delayed cases. Arm adaptive_forms: population form "
+                  "and explicit PyRates network of one model under scipy RK45 (rtol 1e-9) must agree to 2e-6 (delays are not "
+                  "drawn while F-16k is listed).")
 for k, txt in EXTRA2.items():
     CLAIMED[k]["text"] = CLAIMED[k]["text"] + txt
 
